@@ -48,8 +48,13 @@ class SymUnit:
     __slots__ = ("base", "idx", "name")
     __hash__ = None
 
-    def __init__(self, kind, name):
+    def __init__(self, kind, name=None, idx=None):
         self.base = spec.BASE_KIND[kind]
+        if idx is not None:
+            # a unit read from the abstract state: positivity of its factor comes from the state invariant
+            self.idx = idx
+            self.name = str(idx)
+            return
         self.name = name
         self.idx = z3.Int(name)
         c = ctx()
